@@ -51,6 +51,8 @@ type JLine struct {
 	Now   int64    `json:"now,omitempty"`
 	Sweep []string `json:"sweep,omitempty"`
 	End   bool     `json:"end,omitempty"`
+	McSha string   `json:"mc_sha,omitempty"`
+	McLen int      `json:"mc_len,omitempty"`
 }
 
 // RunSpec is one simulated run: a script plus the process environment, all explicit.
